@@ -783,19 +783,27 @@ class InterpBuiltins:
         return self.bool_value(z3.Not(self.old_heap.get('alloc', arr(Ref, B))[v.ref]))
 
     def bi_effects(self, args, kw, line):
+        from .loops import note_effect_query
+        note_effect_query(self, None)
         return ConstSeq([ConstSeq([nme] + list(a), 'tuple') for nme, a in self.effects])
 
     def bi_no_effect(self, args, kw, line):
         """no_effect() : the ghost effect log is empty;  no_effect('send_start_process', ...) : none of these"""
+        from .loops import note_effect_query
+        note_effect_query(self, args)
         if not args:
             return len(self.effects) == len(self.effects_base)
         return not any(nme in args for nme, _ in self.effects[len(self.effects_base):])
 
     def bi_count_effects(self, args, kw, line):
+        from .loops import note_effect_query
+        note_effect_query(self, args)
         return sum(1 for nme, _ in self.effects[len(self.effects_base):] if nme in args)
 
     def bi_effect_at(self, args, kw, line):
         nme, k = args[0], args[1] if len(args) > 1 else 0
+        from .loops import note_effect_query
+        note_effect_query(self, [nme])
         sel = [a for n2, a in self.effects[len(self.effects_base):] if n2 == nme]
         return tuple(sel[k]) if k < len(sel) else None
 
